@@ -8,6 +8,7 @@ package app
 
 import (
 	"errors"
+	"fmt"
 	"io"
 	"math/big"
 	"strings"
@@ -481,4 +482,66 @@ func SV_C15_erc20_handlers() {
 			sv.Cover(!decided && counts, "vote-recorded-below-threshold")
 		}
 	}
+}
+
+// SV_C05_lock_redeem_resubmission: an executed ETH / ERC20 lock or redeem
+// submitted again (in whatever encoding: the handlers see the same signed
+// content) takes no second effect.
+//
+// sv:bounds the pre-states of SV_C15_handlers / SV_C15_erc20_handlers restricted to a tracker that exists (ongoing with any of the representative vote vectors, or passed) for the external transaction that is submitted again, by any party; kinds ETH_LOCK, ETH_REDEEM, ERC20_LOCK, ERC20_REDEEM; delivered with or without a mempool admission on this state
+// sv:outside the raw-bytes index of Tendermint (the known C05 finding concerns kinds without such a record); a retry after a failed tracker (allowed by design)
+// sv:goal the resubmission fails, moves no wrapped token and leaves the tracker (store, state, votes, owner) as it was
+func SV_C05_lock_redeem_resubmission() {
+	svCurrencyLimit = 1
+	fam := sv.Choice("family", 4) // ETH lock, ETH redeem, ERC20 lock, ERC20 redeem
+	var e *svEnv
+	var raw action.RawTx
+	var name ethcmn.Hash
+	var actor int
+	if fam < 2 {
+		pre := &svEthPre{}
+		e = svNewEnv(3, 20, svPreETH(pre, 2))
+		sv.Assume((pre.where == 1 || pre.where == 2) && pre.ext == fam*2)
+		x := svExtTxs[pre.ext]
+		name = ethcmn.BytesToHash(x.raw)
+		i, who := svAnyParty("actor", e.n)
+		actor = i
+		if fam == 0 {
+			raw = svRaw(action.ETH_LOCK, &action_eth.Lock{Locker: who, ETHTxn: x.raw})
+		} else {
+			raw = svRaw(action.ETH_REDEEM, &action_eth.Redeem{Owner: who, To: ethcmn.BytesToAddress([]byte{0xbe, 0xef}), ETHTxn: x.raw})
+		}
+	} else {
+		pre := &svErcPre{}
+		e = svNewEnv(3, 20, svPreERCTracker(pre, 2))
+		sv.Assume((pre.where == 1 || pre.where == 2) && pre.lock == (fam == 2))
+		x := pre.ext()
+		name = ethcmn.BytesToHash(x.raw)
+		i, who := svAnyParty("actor", e.n)
+		actor = i
+		if fam == 2 {
+			raw = svRaw(action.ERC20_LOCK, &action_eth.ERC20Lock{Locker: who, ETHTxn: x.raw})
+		} else {
+			raw = svRaw(action.ERC20_REDEEM, &action_eth.ERC20Redeem{Owner: who, To: svErcContract, ETHTxn: x.raw})
+		}
+	}
+	t0, at0 := svTrackerAt(e, name)
+	if t0 == nil {
+		sv.Unreachable("the tracker exists")
+	}
+	y0, n0 := t0.GetVotes()
+	r := e.step(raw, []int{actor}, sv.Choice("regime", 2) == 0)
+	sv.Assert(r.resp.Code != 0, "resubmitted-lock-or-redeem-is-refused")
+	t1, at1 := svTrackerAt(e, name)
+	sv.Assert(t1 != nil && at1 == at0, "tracker-stays-in-its-store")
+	if t1 != nil {
+		y1, n1 := t1.GetVotes()
+		sv.Assert(y1 == y0 && n1 == n0 && t1.State == t0.State && t1.ProcessOwner.Equal(t0.ProcessOwner) && t1.Type == t0.Type, "tracker-keeps-its-votes-state-and-owner")
+	}
+	for k, c := range r.after.cells {
+		if c.Cur != "OLT" {
+			sv.Assert(c.V.Cmp(r.before.cells[k].V) == 0, "resubmission-moves-no-wrapped-token")
+		}
+	}
+	sv.Cover(true, fmt.Sprint("resubmitted-family-", fam))
 }
